@@ -41,6 +41,12 @@ def _mk(spec):
     raise ValueError(kind)
 
 
+# machines whose messages are delimited by their own length fields (fixed size, string / path / item / frame lengths): the octets
+# that follow belong to the enclosing grammar whatever the outer limit
+DELIMITED = {"USINT", "SINT", "BOOL", "UINT", "INT", "UDINT", "DINT", "REAL", "ULINT", "LINT", "LREAL", "SSTRING", "STRING", "EPATH", "EPATH_padded",
+             "EPATH_single", "status", "enip_machine", "send_data", "CPF", "register", "unconnected_send"}
+
+
 def _lib_runs(job):
     """library machine wrapped in dfa(limit=L) for every L in 0..len+2: job = (label, spec, message octets)"""
     import cpppo
@@ -56,7 +62,7 @@ def _lib_runs(job):
             continue
         top = cpppo.dfa("limited", initial=inner, limit=L, terminal=True, context="x")
         got = autolib.run_machine(top, list(bytearray(octets)) + [0xEE, 0xEE, 0xEE])
-        got.update({"m": label, "L": L, "len": n})
+        got.update({"m": label, "L": L, "len": n, "delim": label.split(":")[0] in DELIMITED})
         out.append(got)
     return out
 
@@ -96,6 +102,8 @@ def library_jobs(vectors):
                 jobs.append(("CPF:" + f["kind"], ("cls", "CPF"), pay))           # identity_object / communications_service items
             elif f["kind"] == "register":
                 jobs.append(("register", ("cls", "register"), pay))
+        elif k == "cpf" and len(b) < 80:
+            jobs.append(("CPF:items", ("cls", "CPF"), b))                  # item lists of every kind, unrecognized items in front of others
         elif k == "fwd" and not v["large"]:
             jobs.append(("forward_open", ("cm", None), b))
             jobs.append(("forward_close", ("cm", None), bytes(bytearray(v["close"]))))
@@ -147,7 +155,7 @@ def main(ctx):
     ev.sample({"instance": insts[len(insts) // 2]["i"], "inputs": inputs[40:44], "expected_done_consumed_terminal_runs": insts[len(insts) // 2]["res"][40:44]})
     # V: library machines under every limit, laws checked by TLC
     vectors = []
-    for w in ("epath", "status", "typed", "logix", "ucsend", "frames", "fwd"):
+    for w in ("epath", "status", "typed", "logix", "ucsend", "frames", "fwd", "cpf"):
         cfgw = os.path.join(wd, "wire_%s.cfg" % w)
         tlc.write_cfg(cfgw, ["INIT WInit", "NEXT WNext", "CHECK_DEADLOCK FALSE", "CONSTANTS", ' Which = "%s"' % w, " Deep = FALSE"])
         r2 = tlc.run("MC_Wire", cfgw, spec_dir=wd, timeout=1700, workers=4)
@@ -167,7 +175,7 @@ def main(ctx):
     fd, path = tempfile.mkstemp(prefix="auto_", suffix=".ndjson")
     with os.fdopen(fd, "w") as f:
         for x in lines:
-            f.write(json.dumps({"L": x["L"], "len": x["len"], "sent": x["sent"], "actual": x["actual"], "ok": bool(x["done"] and x["terminal"])}) + "\n")
+            f.write(json.dumps({"L": x["L"], "len": x["len"], "sent": x["sent"], "actual": x["actual"], "ok": bool(x["done"] and x["terminal"]), "delim": bool(x["delim"])}) + "\n")
     try:
         r3 = tlc.run("AutomataTrace", "AutomataTrace.cfg", env={"TRACE_FILE": path}, timeout=1700)
     finally:
